@@ -34,7 +34,7 @@ pub async fn quiesce(completed: &Arc<AtomicU64>) {
         if act.busy() || blocking_pool_busy() {
             stable = 0;
             std::thread::yield_now();
-            if start.elapsed().as_secs() > 30 {
+            if start.elapsed().as_secs() > 90 {
                 panic!("simulation stuck: store never became idle: {act:?}");
             }
             continue;
